@@ -131,3 +131,54 @@ def decision_diffs(rng):
             if dd:
                 out.append(('decision.' + field + ('.line' if is_line else ''), sub, dd))
     return out
+
+
+# ------------------------------------------------------------------ text-merge renderer selection
+import contextlib
+
+
+@contextlib.contextmanager
+def renderer(mode):
+    """force the text merge helper: 'git' (git merge-file), 'diff3', or 'builtin'"""
+    import nbdime.prettyprint as pp
+    cfg = pp.DefaultConfig
+    saved = (cfg.use_git, cfg.use_diff)
+    cfg.use_git, cfg.use_diff = {'git': (True, True), 'diff3': (False, True), 'builtin': (False, False)}[mode]
+    try:
+        yield
+    finally:
+        cfg.use_git, cfg.use_diff = saved
+
+
+RENDERERS = ['git', 'diff3', 'builtin']
+
+
+def source_lines(nb):
+    out = []
+    for c in nb.get('cells', []):
+        src = c.get('source', '')
+        if isinstance(src, list):
+            src = ''.join(src)
+        out.extend(src.splitlines())
+    return out
+
+
+def nonblank(lines):
+    return [ln for ln in (x.strip() for x in lines) if ln]
+
+
+def concurrent_insert(d1, d2):
+    """do two diffs (same base) both insert at the same position of the same list?"""
+    k1 = {e['key']: e for e in d1 if e['op'] == 'addrange'}
+    for e in d2:
+        if e['op'] == 'addrange' and e['key'] in k1:
+            return True
+    p1 = {e['key']: e for e in d1 if e['op'] == 'patch'}
+    for e in d2:
+        if e['op'] == 'patch' and e['key'] in p1 and concurrent_insert(p1[e['key']]['diff'], e['diff']):
+            return True
+    # dict level: both add the same key
+    a1 = {e['key'] for e in d1 if e['op'] == 'add'}
+    if any(e['op'] == 'add' and e['key'] in a1 for e in d2):
+        return True
+    return False
